@@ -322,6 +322,10 @@ fn offer(target: Target, bytes: &[u8], env: &mut Env) -> (u64, bool) {
             let info = write_world(&w, &dir);
             std::fs::write(dir.join(format!("step.{}.link", prefix8(&f))), bytes).unwrap();
             std::fs::write(dir.join("step.zzzzzzzz.link"), bytes).unwrap();
+            // the eight "characters" of the key-id part need not be eight bytes
+            for name in ["step.€1234567.link", "step.1234567é.link", "step.😀😀😀😀😀😀😀😀.link", "step.ééééaaaa.link"] {
+                let _ = std::fs::write(dir.join(name), bytes);
+            }
             let _ = run_verify(&info, &own_ids(&[owner]), &dir, None);
             let _ = std::fs::remove_dir_all(&dir);
             calls += 1;
@@ -538,7 +542,10 @@ impl Property for C14 {
                             4 => "{\"signatures\":[],\"signed\":{\"_type\":\"link\",\"name\":\"x\",\"materials\":{},\"products\":{},\"byproducts\":{\"return-value\":99999999999},\"command\":[],\"environment\":null}}".to_string(),
                             _ => info.layout_text.clone(),
                         };
-                        post.push((format!("{}.deadbeef.link", sname), body));
+                        let genuine = w.links.iter().find(|f| f.step == sname).and_then(|f| std::fs::read_to_string(dir.join(format!("{}.{}.link", f.step, prefix8(&f.filed_under)))).ok());
+                        let weird = ["deadbeef", "€1234567", "1234567é", "😀😀😀😀😀😀😀😀", "ééééaaaa", "abc€defg", "????????", "a b c d "][(*n as usize / 6) % 8];
+                        let body = if n % 2 == 0 { genuine.unwrap_or(body) } else { body };
+                        post.push((format!("{}.{}.link", sname, weird), body));
                     }
                     Twist::LinkAsLayout => {
                         // hand a link block to in_toto_verify as if it were the layout
